@@ -249,8 +249,9 @@ def ob_update(dec, path, timeout=30):
         problems.append('flip_edge is not called exactly once per flipped edge on (edge, new_signs)')
     # new_signs must be a copy of signs made before the update loop, returned at the end
     src = ast.unparse(f.node)
+    unrec = []
     if 'new_signs = signs.copy()' not in src or not (isinstance(body[-1], ast.Return) and ast.unparse(body[-1].value) == 'new_signs'):
-        problems.append('new_signs is not `signs.copy()` returned at the end')
+        unrec.append('new_signs is not `signs.copy()` returned at the end')
     # sweep rule reads old signs only: no subscript of new_signs outside flip_edge
     for n in ast.walk(f.node):
         if isinstance(n, ast.Subscript) and isinstance(n.value, ast.Name) and n.value.id == 'new_signs':
@@ -258,6 +259,8 @@ def ob_update(dec, path, timeout=30):
     if problems:
         return dict(verdict='refuted', model=None, backend='pyvc-structural', seconds=0, kind='state', detail='; '.join(problems),
                     functions=[dict(function=f.ref, sha256_16=f.sha)], transparent=sorted(x.transparent))
+    if unrec:
+        raise Unsupported('source shape of sweep_move not recognised: %s' % unrec)
     l = z3.Const('l', Loc)
     want = z3.If(opv(loc) == 0, 3, z3.If(opv(loc) == 3, 0, z3.If(opv(loc) == 1, 2, 1)))       # xor with Z
     dom = z3.ForAll([l], z3.And(opv(l) >= 0, opv(l) <= 3))
@@ -274,19 +277,21 @@ def ob_initial(dec, path, timeout=30):
     m = Module.load(path); cls = m.classes[dec]
     gi, de = cls.methods['get_initial_state'], cls.methods['decode']
     src = [ast.unparse(s) for s in gi.node.body if not (isinstance(s, ast.Expr) and isinstance(s.value, ast.Constant))]
-    problems = []
+    problems, unrec = [], []
     if src != ['signs = syndrome.copy()', 'signs[self.code.z_indices] = 0', 'return signs']:
-        problems.append('get_initial_state is not copy + zero the z rows: %s' % src)
+        unrec.append('get_initial_state is not literally copy + zero the z rows: %s' % src)
     dsrc = ast.unparse(de.node)
     if 'signs = self.get_initial_state(syndrome)' not in dsrc or 'return self.code.to_bsf(correction)' not in dsrc:
-        problems.append('decode does not start from get_initial_state(syndrome) / return to_bsf(correction)')
+        unrec.append('decode does not start from get_initial_state(syndrome) / return to_bsf(correction)')
     if 'correction: Dict = dict()' not in dsrc and 'correction = dict()' not in dsrc:
-        problems.append('correction does not start empty')
+        unrec.append('correction does not start empty')
     for n in ast.walk(de.node):
         if isinstance(n, ast.Subscript) and isinstance(n.ctx, ast.Store) and isinstance(n.value, ast.Name) and n.value.id in ('correction', 'signs', 'syndrome'):
             problems.append('decode writes %s directly (line %d)' % (n.value.id, n.lineno))
         if isinstance(n, ast.While) and 'any(signs)' not in ast.unparse(n.test):
             problems.append('sweep loop does not stop on `not any(signs)`')
+    if unrec and not problems:
+        raise Unsupported('source shape not recognised: %s' % unrec)
     return dict(verdict='refuted' if problems else 'discharged', model=None, backend='pyvc-structural', seconds=0, kind='state',
                 detail='; '.join(problems) or 'initial state = face part of the syndrome; correction starts empty and is only updated by sweep_move',
                 functions=[dict(function=f.ref, sha256_16=f.sha) for f in (gi, de)], transparent=[])
